@@ -100,7 +100,7 @@ fn weights(p: Profile, rng: &mut Rng) -> Vec<(K, u32)> {
             (LoadW, 10), (StoreW, 8), (SwapW, 8), (CasW, 14), (CasTagW, 5), (Flush, 1),
         ],
         Profile::Bulk => vec![
-            (Pin, 5), (Unpin, 4), (Flush, 2), (New, 3), (NewMany, 8), (NewIter, 8), (WeakMany, 8), (Clone, 2), (DropRc, 10), (Finalize, 3), (Downgrade, 2), (DropW, 6), (Upgrade, 4),
+            (Pin, 5), (Unpin, 4), (Flush, 2), (PanicCs, 2), (New, 3), (NewMany, 8), (NewIter, 8), (WeakMany, 8), (Clone, 2), (DropRc, 10), (Finalize, 3), (Downgrade, 2), (DropW, 6), (Upgrade, 4),
             (Load, 3), (Store, 5), (Swap, 3), (DerefRc, 2), (StoreW, 2),
         ],
         Profile::Ebr => vec![
@@ -192,7 +192,7 @@ fn gen_ops_from(rng: &mut Rng, p: Profile, n: usize, roots: u32, wroots: u32, mu
                 op(K::ReactAfter, g as u32, rng.below(4) as u32, 0, 0)
             }),
             K::Flush => occ.live_guard(rng).map(|g| op(K::Flush, g as u32, 0, 0, 0)),
-            K::PanicCs => Some(op(K::PanicCs, rng.below(3) as u32, rng.below(10) as u32, 0, 0)),
+            K::PanicCs => Some(op(K::PanicCs, rng.below(4) as u32, rng.below(10) as u32, 0, 0)),
             K::New => Occ::pick(rng, &occ.rc, false).map(|d| {
                 let extra = if rng.chance(0.2) { Occ::pick(rng, &occ.rc, true).map(|x| x as u32).unwrap_or(NONE_SLOT) } else { NONE_SLOT };
                 // a field initialised through one of the conversion impls instead of the plain-Rc field
@@ -413,7 +413,7 @@ fn gen_ops_from(rng: &mut Rng, p: Profile, n: usize, roots: u32, wroots: u32, mu
             K::Defer => occ.live_guard(rng).map(|g| op(K::Defer, g as u32, rng.below(crate::closures::NSHAPES as u64) as u32, if rng.chance(0.25) { 1 + rng.below(3) as u32 } else { 0 }, 0)),
             K::TryAdvance => occ.live_guard(rng).map(|g| op(K::TryAdvance, g as u32, 0, 0, 0)),
             K::Collect => occ.live_guard(rng).map(|g| op(K::Collect, g as u32, 0, 0, 0)),
-            K::Nop | K::Signal | K::Await | K::TlsInit | K::QPush | K::QPop | K::QPopIf | K::LIns | K::LDel | K::LTrav => None,
+            K::Nop | K::Signal | K::Await | K::TlsInit | K::CheckDeferred | K::QPush | K::QPop | K::QPopIf | K::LIns | K::LDel | K::LTrav => None,
         };
         if let Some(o) = o {
             out.push(o);
@@ -601,6 +601,8 @@ pub fn generate(prop: &str, family: &str, seed: u64) -> RunDesc {
         "dir-t9" => crate::dir::t9(prop, seed),
         "dir-t10" => crate::dir::t10(prop, seed),
         "dir-t11" => crate::dir::t11(prop, seed),
+        "dir-t12" => crate::dir::t12(prop, seed),
+        "dir-t13" => crate::dir::t13(prop, seed),
         "dir-w" => crate::dir::w(prop, seed),
         "dir-c" => crate::dir::c(prop, seed),
         "client" => crate::fam_client::gen(prop, seed),
